@@ -386,3 +386,50 @@ def norm_compare(c):
             return None
         return b, _MIRROR[op], a
     return a, op, b
+
+
+# ---------------------------------------------------------------------------
+# conditions in force at a statement (syntax-directed, no loops unrolled)
+
+_LEAVES = (ast.Return, ast.Raise, ast.Continue, ast.Break)
+
+
+def path_conditions(fnode):
+    """id(stmt) -> list of (test expression, polarity) known to hold whenever
+    the statement executes: tests of enclosing `if`s (negated in the else
+    arm) and of earlier `if`s of the same block one of whose arms always
+    leaves the block."""
+    out = {}
+
+    def leaves(block):
+        return bool(block) and isinstance(block[-1], _LEAVES)
+
+    def walk(stmts, conds):
+        conds = list(conds)
+        for s in stmts:
+            out[id(s)] = list(conds)
+            if isinstance(s, ast.If):
+                walk(s.body, conds + [(s.test, True)])
+                walk(s.orelse, conds + [(s.test, False)])
+                if leaves(s.body) and not leaves(s.orelse):
+                    conds = conds + [(s.test, False)]
+                elif leaves(s.orelse) and not leaves(s.body):
+                    conds = conds + [(s.test, True)]
+                continue
+            for attr in ("body", "orelse", "finalbody"):
+                b = getattr(s, attr, None)
+                if isinstance(b, list) and not isinstance(
+                        s, (ast.FunctionDef, ast.AsyncFunctionDef,
+                            ast.ClassDef)):
+                    walk(b, conds)
+            for h in getattr(s, "handlers", []):
+                walk(h.body, conds)
+    walk(fnode.body, [])
+    return out
+
+
+def stmt_of(node, parents):
+    cur = node
+    while cur is not None and not isinstance(cur, ast.stmt):
+        cur = parents.get(cur)
+    return cur
